@@ -361,6 +361,27 @@ func streamCodec(c *Ctx) {
 	if c.Thorough() {
 		allCodes(c)
 	}
+	// very long strings (oracle only: the round trip itself; a megabyte of details is an error
+	// with a stack trace or a batch of per-item violations - round 11, C18-mp)
+	for _, n := range []int{786432, 786433, 1<<20 + 1, 3<<20 + 1} {
+		raw := r.Bytes(n)
+		c.Count("probe-b64-long")
+		got := safely(func() string {
+			for _, enc := range []string{connect.EncodeBinaryHeader(raw), base64.StdEncoding.EncodeToString(raw)} {
+				dec, err := connect.DecodeBinaryHeader(enc)
+				if err != nil {
+					return "decode failed: " + err.Error()
+				}
+				if !bytes.Equal(dec, raw) {
+					return "decoded to something else"
+				}
+			}
+			return "ok"
+		})
+		if got != "ok" {
+			c.Fail("b64-long-roundtrip", fmt.Sprintf("DecodeBinaryHeader(EncodeBinaryHeader(b)), %d random bytes (padded and unpadded)", n), got, "binary header values round-trip every byte string")
+		}
+	}
 	// long random strings, structured decoder inputs
 	alphabet := "ABCDEFGHIJKLMNOPQRSTUVWXYZabcdefghijklmnopqrstuvwxyz0123456789+/"
 	for i := 0; i < 6000; i++ {
